@@ -9,6 +9,13 @@ LEVEL_NOTE = ("Trusted base: clang 14 front end and CFG builder, the gsa-extract
               "Assumes the shipped configuration (GALOIS_USE_LONGJMP_ABORT, NDEBUG).")
 
 CHECKS = {
+    "C16": ("narrow: exhaustive evaluation of structural necessary conditions on every ParallelSTL instantiation of the driver: "
+            "block-claiming state only under its lock, disjoint blocks from the two ends, the no-leftover test consistent with "
+            "the constructor's sentinels, serial clean-up of the leftover span on every other path, worker re-claims exactly on "
+            "exhaustion and reports leftovers; quick-sort helper shape (cut-off, same comparator, both non-empty sub-ranges "
+            "pushed); reducer algorithms update inside the loop and return reduce(); find_if records before breaking and scans "
+            "all slots. Equality with std:: for all inputs (value-level) is not decided.",
+            "lock typestate, sentinel/sibling consistency and CFG ordering rules over clang AST facts", "4 C16"),
     "C15": ("narrow: exhaustive evaluation of structural necessary conditions on every instantiation found: merge functor paired "
             "with the matching identity and functors compute what they are named; -= negates; Reducible ctor/reset/reduce cover "
             "all slots with the right start index and re-arm after merging; atomic min/max/add/subtract are CAS loops with the "
